@@ -209,6 +209,9 @@ class CondSpec(SeqSpec):
         return sum(1 for o in case["ops"] if o[0] == "wait") >= 1 and sum(1 for o in case["ops"] if o[0] in ("signal", "broadcast", "cancel")) >= 1
 
 
+SPECS = {"cond": (CondSpec(), "harness", "runner")}
+
+
 def run(ctx):
     proofs_ok = ctx.check_proofs(PROP_FILES, extra_targets=["theories/Conc/Cond.vo"])
     ok, out, exe = vlib.build_runner()
